@@ -1013,7 +1013,26 @@ def c05(ctx: Ctx) -> None:
                       'the computing caller sets an Event other than the one it published in its marker: waiters are never '
                       'woken and its ownership test never matches (the marker is never removed)',
                       witness=render(g, full), construct=construct_key(r.wrapper.qualname, 'marker event identity'))
+    # ... and nothing else is ever set: an Event read from the table belongs to another activation, possibly to a loop that is
+    # closed (set() then schedules the waiters' wake-up on that loop: RuntimeError) and is not thread-safe to touch
+    rule_foreign_set(ctx, r, 'C05-R8')
     _publish_roles(ctx, r)
+
+
+def rule_foreign_set(ctx: Ctx, r: CacheRoles, rule: str) -> None:
+    """Only the owner sets an event: every set()/clear() on an event value lies behind a MARK of the same activation (the
+    identity of what is set with what was marked is C05-R8 proper).  An Event read from the table belongs to another
+    activation - possibly to a closed loop, where set() raises RuntimeError while waking that loop's waiters."""
+    g = r.cfg
+    sets = [n for n in g.nodes if n.kind == 'call' and isinstance(n.ast.func, ast.Attribute) and n.ast.func.attr in ('set', 'clear') and not n.ast.args
+            and r.is_event_value(n, n.ast.func.value)]
+    for n in sets:
+        w = must_pass(g, [g.entry], [n], r.MARK)
+        ctx.check(rule, f'{norm(n.ast)} only by the activation that stored the marker', _loc(g, n), w is None and bool(r.MARK),
+                  'reached only after this activation\'s MARK',
+                  'an Event is set/cleared by a caller that has not (yet) published a marker of its own: it is the Event found in the in-flight '
+                  'table - another activation\'s, possibly of a closed loop, where set() raises RuntimeError out of the cache\'s bookkeeping',
+                  witness=render(g, w), construct=construct_key(r.wrapper.qualname, 'foreign event set', n.ast.func.attr))
 
 
 # ---------------------------------------------------------------------------
